@@ -306,6 +306,28 @@ fn is_mutator(c: &Call) -> bool {
 
 /// Write the state reached by `base` (on the in-memory store) into a database laid out as an older
 /// TaskChampion wrote it.
+/// Take a database written by the tree's store back to the schema of TaskChampion 0.9 or of DbVersion (0,1): the version table is
+/// dropped / set to (0,1) and `operations.uuid` is the generated column as those versions declared it (double-quoted JSON paths).
+fn downgrade(dir: &Path, kind: &str) {
+    let con = rusqlite::Connection::open(dir.join("taskchampion.sqlite3")).unwrap();
+    con.execute_batch(
+        r#"DROP INDEX IF EXISTS operations_by_uuid;
+           ALTER TABLE operations DROP COLUMN uuid;
+           ALTER TABLE operations ADD COLUMN uuid GENERATED ALWAYS AS (
+                coalesce(json_extract(data, "$.Update.uuid"),
+                         json_extract(data, "$.Create.uuid"),
+                         json_extract(data, "$.Delete.uuid"))) VIRTUAL;
+           CREATE INDEX operations_by_uuid ON operations (uuid);"#,
+    )
+    .unwrap();
+    if kind == "legacy-0.9" {
+        con.execute_batch("DROP TABLE version;").unwrap();
+    } else {
+        con.execute_batch("UPDATE version SET major = 0, minor = 1;").unwrap();
+    }
+    let _: String = con.query_row("PRAGMA wal_checkpoint(TRUNCATE)", [], |_| Ok(String::new())).unwrap_or_default();
+}
+
 async fn write_legacy(dir: &Path, kind: &str, mem: &mut InMemoryStorage) {
     let _ = std::fs::remove_dir_all(dir);
     std::fs::create_dir_all(dir).unwrap();
@@ -398,10 +420,21 @@ impl Worker {
         let group = if legacy { sc.kind.clone() } else { "rw".to_string() };
         let key = format!("{group}-{}", serde_json::to_string(&sc.base).unwrap());
         let tdir = self.dir.join(format!("tmpl-{:x}", fxhash(&key)));
+        // a 0.8 database has no `synced` column (every stored operation counts as not synced): its base has no sync_complete;
+        // 0.9 and (0,1) databases are written by the tree's own store and then taken back to the old schema, flags included
+        let written_old = sc.kind == "legacy-0.8";
         let base: Vec<Call> =
-            sc.base.iter().filter(|c| !(legacy && **c == Call::SyncComplete)).cloned().collect();
+            sc.base.iter().filter(|c| !(written_old && **c == Call::SyncComplete)).cloned().collect();
         if !self.templates.contains_key(&key) {
-            let ok = if legacy {
+            let ok = if legacy && !written_old {
+                let mut p = Pair::fresh(&tdir).await;
+                let skipped = run_txn(&mut p, sc, &base, End::Commit, "base").await?;
+                p.sq = None;
+                if !skipped {
+                    downgrade(&tdir, &sc.kind);
+                }
+                !skipped
+            } else if legacy {
                 let mut mem = InMemoryStorage::new();
                 let mut ok = true;
                 {
